@@ -143,6 +143,29 @@ def _std_transfer(I, fr, t, c, pth):
     dest = t['dest']
     where = t['span']
 
+    # bit counting on words whose leading bits are known (a scalar with a known leading one)
+    if name in ('leading_zeros', 'trailing_zeros') and res.startswith('core::num::<impl u') and len(args) == 1:
+        v_ = fr.operand(args[0])
+        bits_ = None
+        if isinstance(v_, Int):
+            w_ = 64 if 'u64' in res or 'usize' in res else (32 if 'u32' in res else (8 if 'u8' in res else 64))
+            bits_ = [(v_.v >> i_) & 1 for i_ in range(w_)]
+        elif isinstance(v_, BV):
+            bits_ = list(v_.e)
+        if bits_ is not None:
+            seq_ = reversed(bits_) if name == 'leading_zeros' else bits_
+            n_ = 0
+            for x_ in seq_:
+                if x_ == 0:
+                    n_ += 1
+                elif x_ == 1:
+                    fr.storev(dest, Int(n_, 32))
+                    return True
+                else:
+                    return False            # a symbolic bit decides the count
+            fr.storev(dest, Int(n_, 32))
+            return True
+        return False
     # operator traits on primitive integers with reference operands (`acc | b` with b: &u8 is a call, not a MIR binop)
     if trait in OPS_TRAITS and name == OPS_TRAITS[trait][0] and len(args) == 2 and (c.get('self_ty') or '').lstrip('&') in PRIM_INTS:
         a_, b_ = fr.deref_operand(args[0]) if (c.get('self_ty') or '').startswith('&') else fr.operand(args[0]), fr.operand(args[1])
